@@ -1,6 +1,7 @@
 package main
 
 import (
+	"go/types"
 	"fmt"
 	"go/token"
 	"strings"
@@ -47,24 +48,52 @@ func commitHook(fn *ssa.Function) (commit ssa.CallInstruction, ok bool) {
 	if pmc != nil {
 		pval = pmc
 	}
-	// a closure without free variables is a bare function value
-	gp := par.Parent()
-	if gp == nil {
-		return nil, false
+	isRegArg := func(a ssa.Value) bool {
+		a = strip(a)
+		if pval != nil && a == pval {
+			return true
+		}
+		if funcOf(a) == par {
+			return true
+		}
+		// a method value: closure over the bound-method wrapper of par
+		if mc, ok := a.(*ssa.MakeClosure); ok {
+			if w, ok := mc.Fn.(*ssa.Function); ok && boundTarget(w) == par {
+				return true
+			}
+		}
+		return false
 	}
-	for _, b := range gp.Blocks {
-		for _, in := range b.Instrs {
+	// a closure without free variables is a bare function value
+	var scope []*ssa.Function
+	if gp := par.Parent(); gp != nil {
+		scope = []*ssa.Function{gp}
+	} else if lastCtx != nil {
+		// a named hook (function or method value): registered wherever it is handed to OnCommit, and handed to
+		// nothing else
+		scope = lastCtx.Funcs
+		for _, in := range lastCtx.valueUses(par) {
 			call, isC := in.(*ssa.Call)
-			if !isC {
-				continue
+			if !isC || call.Call.StaticCallee() == nil || !fnIs(call.Call.StaticCallee(), entPkg, "Tx.OnCommit") {
+				return nil, false
 			}
-			cal := call.Call.StaticCallee()
-			if cal == nil || !fnIs(cal, entPkg, "Tx.OnCommit") {
-				continue
-			}
-			for _, a := range call.Call.Args {
-				if (pval != nil && strip(a) == pval) || funcOf(a) == par {
-					reg = true
+		}
+	}
+	for _, g := range scope {
+		for _, b := range g.Blocks {
+			for _, in := range b.Instrs {
+				call, isC := in.(*ssa.Call)
+				if !isC {
+					continue
+				}
+				cal := call.Call.StaticCallee()
+				if cal == nil || !fnIs(cal, entPkg, "Tx.OnCommit") {
+					continue
+				}
+				for _, a := range call.Call.Args {
+					if isRegArg(a) {
+						reg = true
+					}
 				}
 			}
 		}
@@ -80,6 +109,23 @@ func commitHook(fn *ssa.Function) (commit ssa.CallInstruction, ok bool) {
 		}
 	}
 	return nil, false
+}
+
+// boundTarget: w is the synthetic bound-method wrapper of a method; returns that method.
+func boundTarget(w *ssa.Function) *ssa.Function {
+	if w == nil || !strings.HasPrefix(w.Synthetic, "bound method wrapper") {
+		return nil
+	}
+	for _, b := range w.Blocks {
+		for _, in := range b.Instrs {
+			if ci, ok := in.(ssa.CallInstruction); ok {
+				if cal := ci.Common().StaticCallee(); cal != nil {
+					return cal
+				}
+			}
+		}
+	}
+	return nil
 }
 
 // afterSuccessfulCommit: instruction `at` in a commit hook executes only if the wrapped Commit returned nil.
@@ -902,10 +948,83 @@ func selfDerived(v ssa.Value, k string, seen map[ssa.Value]bool) (derived, safe 
 			return join(t.Call.Args...)
 		}
 	}
-	if sources(v)["path:"+k] {
+	if derivesFromPath(v, k) {
 		return true, false
 	}
 	return false, true
+}
+
+// derivesFromPath: backward slice from v reaches a load of the field with key k — not looking through calls that
+// return stored entities (a row looked up by the parameter is not "the parameter's previous value": the retry looks
+// the same row up again).
+func derivesFromPath(v ssa.Value, k string) bool {
+	seen := map[ssa.Value]bool{}
+	var walk func(v ssa.Value, d int) bool
+	walk = func(v ssa.Value, d int) bool {
+		if v == nil || seen[v] || d > 40 {
+			return false
+		}
+		seen[v] = true
+		switch x := v.(type) {
+		case *ssa.FieldAddr:
+			if valKey(x) == k {
+				return true
+			}
+		case *ssa.Field:
+			if valKey(x) == k {
+				return true
+			}
+		case *ssa.Call:
+			if returnsEntity(x.Type()) {
+				return false
+			}
+		case *ssa.Alloc:
+			for _, st := range allocStores(x) {
+				if walk(st.Val, d+1) {
+					return true
+				}
+			}
+			return false
+		case *ssa.FreeVar:
+			if b := freeVarBinding(x); b != nil {
+				return walk(b, d+1)
+			}
+			return false
+		}
+		if in, ok := v.(ssa.Instruction); ok {
+			for _, op := range in.Operands(nil) {
+				if *op != nil && walk(*op, d+1) {
+					return true
+				}
+			}
+		}
+		return false
+	}
+	return walk(v, 0)
+}
+
+func returnsEntity(t types.Type) bool {
+	isEnt := func(t types.Type) bool {
+		if sl, ok := t.Underlying().(*types.Slice); ok {
+			t = sl.Elem()
+		}
+		if p, ok := t.Underlying().(*types.Pointer); ok {
+			if n, ok := p.Elem().(*types.Named); ok && n.Obj().Pkg() != nil && n.Obj().Pkg().Path() == entPkg {
+				_, isStruct := n.Underlying().(*types.Struct)
+				return isStruct
+			}
+		}
+		return false
+	}
+	if tup, ok := t.(*types.Tuple); ok {
+		for i := 0; i < tup.Len(); i++ {
+			if isEnt(tup.At(i).Type()) {
+				return true
+			}
+		}
+		return false
+	}
+	return isEnt(t)
 }
 
 // calledOnlyAfterCommit: closure f is handed (as an argument) to a helper whose corresponding parameter is invoked
